@@ -52,9 +52,9 @@ CHECKS.update({
         note="The theorems are about Lbl.v, a hand transcription of k8s.io/apimachinery/pkg/labels/selector.go v0.28.3 and util/validation (modelled, not verified; sort.Sort modelled as a stable sort, the theorems hold for any order of equal keys); its agreement with the library is sampled per run. Trusted also: Coq kernel, extraction, drivers.",
         ref="§5 C17"),
     "C18": dict(
-        technique="Coq proof (validate_spec = 0 errors iff documented acceptance condition, for every library oracle answer; update validation = 0 iff specs equal) + exhaustive-grid correspondence on error counts",
-        text="Theorems (Properties/C18.v) over a transliteration of validation.go returning the number of field errors; the real ValidateClusterCIDRSpec/ValidateClusterCIDRUpdate are run on the grid (every prefix length x hostBits -2..130, wrong family, malformed, 21 selector shapes, update pairs differing in every subset of fields) and the counts compared.",
-        note="Trusted: library answers (ParseCIDRSloppy, ValidateLabelName, NameIsDNSSubdomain, Semantic.DeepEqual) enter the model as inputs computed by the real libraries; Coq kernel, extraction, drivers.",
+        technique="Coq proof (validate_spec = 0 errors iff documented acceptance condition, for every answer of ParseCIDRSloppy, with key validity (IsQualifiedName) and node-name validity (IsDNS1123Subdomain) computed by the model from the selector itself; update validation = 0 iff specs equal) + exhaustive-grid correspondence on error counts",
+        text="Theorems (Properties/C18.v) over a transliteration of validation.go returning the number of field errors; the real ValidateClusterCIDRSpec/ValidateClusterCIDRUpdate are run on the grid (every prefix length x hostBits -2..130, wrong family, malformed, 52 selector shapes incl. the boundaries of qualified names and DNS subdomains, update pairs differing in every subset of fields) and the counts compared.",
+        note="Trusted: the answers of ParseCIDRSloppy enter the model as inputs computed by the real library; ValidateLabelName and NameIsDNSSubdomain are modelled (ValidSel.v, Lbl.v: hand transcriptions of util/validation, compared on every run); Semantic.DeepEqual is modelled as structural equality; Coq kernel, extraction, drivers.",
         ref="§5 C18"),
 })
 
@@ -89,7 +89,7 @@ CHECKS.update({
 CHECKS.update({
     "C15": dict(
         technique="Coq proof, PARTIAL (mutual exclusion makes critical sections atomic: every interleaving equals a one-at-a-time execution; hypothesis = C16's lock discipline re-checked on the current tree; system theorems hold for every order of atomic steps) + validation run of the real Run() under the Go race detector with final-state monitors",
-        text="Theorem (Properties/C15.v, Serial.v) over a generic threads-with-one-lock machine; its hypothesis for this program is discharged by the translator-based C16 check on every run. The race-detector run (12 seeded workloads with 30+30 workers, real informers and queues) is a test, not a proof.",
+        text="Theorem (Properties/C15.v, Serial.v) over a generic threads-with-one-lock machine; its hypothesis for this program is discharged by the translator-based C16 check on every run. The race-detector run (12 seeded workloads and 4 churn workloads with delay injection, 30+30 workers, real informers and queues; 40 more churn workloads as the search for a failing schedule when the lock-discipline hypothesis no longer checks) is a test, not a proof.",
         note="PARTIAL: data races on memory outside the lock facts' vocabulary and the Go memory model cannot be exhibited by the model; client-go fake clientsets stand in for the API server in the validation run. Trusted: Coq kernel, translator, Go race detector.",
         ref="§5 C15"),
 })
